@@ -163,6 +163,12 @@ def partition(idx, emit, tok, opc, lo, hi, out, depth=0):
         res, n = check_class(idx, emit, tok, opc, lo, hi)
         out.append((lo, hi, res, n))
         return
+    except ivinterp.LoopBudget as e:
+        # every branch was uniform on this class and a loop still ran past the bound: sizing / encoding does not terminate here
+        # (an operand has at most 8 nibbles; the loops of the repaired tree run at most 8 times)
+        msg = 'sizing or encoding does not terminate for operands in this class: %s' % e
+        out.append((lo, hi, [('R1', False, msg), ('R2', False, msg), ('R3', False, msg)], 0))
+        return
     except NeedSplit as e:
         if lo == hi:
             raise AnalysisBroken('cannot decide singleton class {%d}: %s' % (lo, e))
@@ -275,6 +281,11 @@ def rule_parse(rep, idx):
         else:
             want = tuple(sorted((i32(-lo), i32(-hi))))
         got = (v.lo, v.hi) if isinstance(v, IV) else None
+        if sp == 'minus' and lo > INT_MAX + 1:
+            # "-n" with n > 2^31 names no 32-bit value: outside the property's quantifier, whatever the parser makes of it (wrap, saturate)
+            rep.add('RA', '%s:[%d,%d]' % (sp, lo, hi), not I.ub, pos(f.node) + ' hexasm::Parser::parseInteger',
+                    'literal -n with n > 2^31 is not a 32-bit value: parseInteger yields %r (not judged)%s' % (got, ('; UB: %s' % I.ub) if I.ub else ''), nontrivial=False)
+            continue
         # negating an unsigned value is defined; converting to int is modular
         rep.add('RA', '%s:[%d,%d]' % (sp, lo, hi), got == want and not I.ub, pos(f.node) + ' hexasm::Parser::parseInteger',
                 'literal %s n, n in [%d,%d]: parseInteger yields %r, expected int32 range %r%s' % (
